@@ -269,12 +269,15 @@ def pack_dataclass(spec: ValueSpec) -> Optional[Expression]:
         if spec.builder.is_nailed:
             return f"{spec.expression}.{method_name}({flags})"
         else:
+            method_args = spec.expression
+            if not hasattr(spec.attrs, method_name):
+                # the class refers to itself: its method is being compiled
+                return f"{spec.self_attrs_name}.{method_name}({method_args})"
             cls_alias = clean_id(type_name(spec.origin_type))
             method_name_alias = f"{cls_alias}_{method_name}"
             spec.builder.ensure_object_imported(
                 getattr(spec.attrs, method_name), method_name_alias
             )
-            method_args = spec.expression
             return f"{method_name_alias}({method_args})"
 
 
